@@ -183,3 +183,28 @@ def breakpoints(desc):
         pts.add(l)
         pts.add(r)
     return sorted(pts)
+
+
+def permute_node_ids(rng, desc, p=0.6):
+    """tskit puts no constraint on node ids (only times order parents and children).
+    random_desc numbers nodes in non-decreasing time order, samples first; this returns an
+    equivalent description with the node ids permuted (fully reversed 'ancestors first' with
+    probability ~p/3, a random permutation otherwise) and the permutation pi (old id -> new id),
+    or (desc, None) when left unchanged.  Edge/mutation/migration row order is preserved."""
+    n = len(desc["nodes"])
+    if n < 2 or rng.random() >= p:
+        return desc, None
+    if rng.random() < 1 / 3:
+        pi = [n - 1 - u for u in range(n)]
+    else:
+        pi = list(range(n))
+        rng.shuffle(pi)
+    nodes = [None] * n
+    for u in range(n):
+        nodes[pi[u]] = desc["nodes"][u]
+    d2 = dict(desc)
+    d2["nodes"] = nodes
+    d2["edges"] = [[l, r, pi[p_], pi[c], m] for l, r, p_, c, m in desc["edges"]]
+    d2["mutations"] = [[s, pi[u], ds, par, t, m] for s, u, ds, par, t, m in desc["mutations"]]
+    d2["migrations"] = [[l, r, pi[u], a, b, t, m] for l, r, u, a, b, t, m in desc["migrations"]]
+    return d2, pi
